@@ -14,7 +14,7 @@ func stdB64(s string) string { return base64.StdEncoding.EncodeToString([]byte(s
 
 func runExtra(r *common.Rand) {
 	runCodec(r)
-	nc := run.Scale(300, 20000)
+	nc := run.Scale(300, 80000)
 	for i := 0; i < nc; i++ {
 		runConc(genConc(r))
 	}
@@ -25,7 +25,7 @@ func runExtra(r *common.Rand) {
 		for _, cc := range fixedCrashes() {
 			runCrash(cc)
 		}
-		n := run.Scale(3, 36)
+		n := run.Scale(5, 120)
 		for i := 0; i < n; i++ {
 			runCrash(genCrash(r))
 		}
